@@ -366,7 +366,7 @@ class Oscar(BaseStorer):
             "y": "%g",
             "z": "%g",
             "mass": "%g",
-            "p0": "%.9g",
+            "E": "%.9g",
             "px": "%.9g",
             "py": "%.9g",
             "pz": "%.9g",
@@ -378,7 +378,7 @@ class Oscar(BaseStorer):
             "xsecfac": "%g",
             "proc_id_origin": "%d",
             "proc_type_origin": "%d",
-            "time_last_coll": "%g",
+            "t_last_coll": "%g",
             "pdg_mother1": "%d",
             "pdg_mother2": "%d",
             "baryon_number": "%d",
